@@ -298,6 +298,18 @@ pub fn check_reading(o: &mut Outcome, text: &str, expected: &[Vec<(String, Strin
                 o.v("C03", "lookup", "Paragraph::contains_key", "mismatch", feats, text, format!("contains_key({:?}) false", k));
             }
         }
+        // names that are NEAR an existing one (dash / underscore swapped, other case, one character short or long) are
+        // absent unless the paragraph really has them
+        for (k, _) in exp.iter() {
+            let mut near = vec![k.replace('-', "_"), k.replace('_', "-"), k.to_lowercase(), k.to_uppercase(), format!("{}x", k)];
+            if k.chars().count() > 1 { near.push(k.chars().take(k.chars().count() - 1).collect()); }
+            for nk in near {
+                if nk.is_empty() || exp.iter().any(|(k2, _)| *k2 == nk) { continue; }
+                if p.get(&nk).is_some() || p.contains_key(&nk) || p.get_all(&nk).count() != 0 {
+                    o.v("C03", "lookup", "Paragraph::get", "mismatch", feats, text, format!("name {:?} is not in the paragraph (only {:?} is) but get / contains_key / get_all find it", nk, k));
+                }
+            }
+        }
         let absent = "Zz-absent";
         if p.get(absent).is_some() || p.contains_key(absent) || p.get_all(absent).count() != 0 {
             o.v("C03", "lookup", "Paragraph::get", "mismatch", feats, text, "absent key found".into());
@@ -432,6 +444,29 @@ pub fn run_files(case: &Value, _seed: u64) -> Outcome {
     o.nontrivial = text.len() > 10;
     let feats = vec![];
     observe_text(&mut o, case, &text, &feats, true);
+    // a reader that is interrupted (ErrorKind::Interrupted is to be retried, not taken for the end) and hands out its
+    // data in small pieces
+    if id <= 12 {
+        struct Flaky<'a> { data: &'a [u8], pos: usize, calls: usize }
+        impl<'a> std::io::Read for Flaky<'a> {
+            fn read(&mut self, buf: &mut [u8]) -> std::io::Result<usize> {
+                self.calls += 1;
+                if self.calls % 3 == 1 { return Err(std::io::Error::new(std::io::ErrorKind::Interrupted, "interrupted")); }
+                let n = buf.len().min(7).min(self.data.len() - self.pos);
+                buf[..n].copy_from_slice(&self.data[self.pos..self.pos + n]);
+                self.pos += n;
+                Ok(n)
+            }
+        }
+        let r = guarded("Deb822::read_relaxed", || Deb822::read_relaxed(Flaky { data: text.as_bytes(), pos: 0, calls: 0 }).map(|(d, _)| d.to_string()));
+        match r {
+            Ok(Ok(p)) => if p != text { o.v("C01", "read_eq", "Deb822::read_relaxed", "mismatch", &vec!["interrupted_reader".to_string()], &text, format!("read through an interrupted reader, printed {:?}", p.chars().take(80).collect::<String>())); },
+            Ok(Err(e)) => o.v("C01", "read_eq", "Deb822::read_relaxed", "mismatch", &vec!["interrupted_reader".to_string()], &text, format!("read through an interrupted reader failed: {}", e)),
+            Err(m) => o.v("C02", "total", "Deb822::read_relaxed", "panic", &vec!["interrupted_reader".to_string()], &text, m),
+        }
+        let r = guarded("Deb822::read", || Deb822::read(Flaky { data: text.as_bytes(), pos: 0, calls: 0 }).map(|d| d.to_string()).ok());
+        if let Ok(Some(p)) = r { if p != text { o.v("C01", "read_eq", "Deb822::read", "mismatch", &vec!["interrupted_reader".to_string()], &text, format!("read through an interrupted reader, printed {:?}", p.chars().take(80).collect::<String>())); } }
+    }
     // a file that is not a regular file (a FIFO: its reported size is 0): from_file reads what is written into it
     if id <= 6 {
         let fifo = std::env::temp_dir().join(format!("verif-fifo-{}-{}", std::process::id(), id));
